@@ -12,7 +12,8 @@ From C01 Require Gen_One Gen_P4 Gen_P4A P4_Slot P4_Bucket LimP4Ops Glue.
 From C01 Require OpenN1Ops Gen_OpenN1_ops Open2N2Ops Gen_Open2N2_ops.
 From C01 Require IterMachine KindFacts Gen_UnlimP Gen_LimP1 Gen_LimP1t Gen_LimP1f Gen_Lim4 Gen_LimP Open8Match.
 From C01 Require Gen_LimP4 Gen_Open2N2 Gen_Open2N2w Gen_OpenN1.
-From C01 Require Gen_HashSetGrow GrowLoops TableN1 TableN1Inst Gen_LimP1_ops LimP1Ops Gen_HSFind GenWalk.
+From C01 Require Gen_HashSetGrow GrowLoops TableN1 TableN1Inst Gen_LimP1_ops LimP1Ops Gen_HSFind ChainWalk StepExn NoSwallow.
+From C01 Require Gen_HashBucketBase Gen_Open2N2 Gen_OpenN1.
 From MomoCommon Require GenPrelude.
 Import ListNotations.
 Local Open Scope Z_scope.
@@ -573,7 +574,7 @@ Print Assumptions reserve_loop_agrees.
 Theorem addgrow_loop_terminates_agrees : forall mc calcCapacity ht cnt nc nl, 0 <= nl <= 63 ->
   match Gen_HashSetGrow.pvAddGrow_loop0 mc (fun bc _ => calcCapacity bc) Gen_HashSetGrow.fuel_of_pvAddGrow ht cnt nc nl with
   | GenPrelude.Ok (None, (c', nl')) => HashModel.reserve_log calcCapacity 64 nl (cnt + 1) = Some nl' /\ c' = calcCapacity (2 ^ nl')
-  | GenPrelude.Exn => True
+  | GenPrelude.Exn => forall j, nl <= j <= 63 -> calcCapacity (2 ^ j) < cnt + 1
   | _ => False
   end.
 Proof. exact GrowLoops.addgrow_loop_terminates_agrees. Qed.
@@ -668,22 +669,71 @@ Print Assumptions C01_limp1_remove.
 Theorem C01_generation_walk_first_hit : forall (fr : nat -> Z) (n : nat) (hash_of : Z -> Z) mCount key ht pred,
   (1 <= n <= Gen_HSFind.fuel_of_pvFindKey)%nat ->
   Gen_HSFind.pvFindKey false hash_of (fun _ b _ => fr (Z.to_nat (b - 1))) (fun b => if b <? Z.of_nat n then b + 1 else 0) mCount 1 key ht pred
-  = GenPrelude.Ok (if mCount =? 0 then 0 else GenWalk.first_nz fr 0 n).
-Proof. exact GenWalk.walk_first_hit. Qed.
+  = GenPrelude.Ok (if mCount =? 0 then 0 else ChainWalk.first_nz fr 0 n).
+Proof. exact ChainWalk.walk_first_hit. Qed.
 Print Assumptions C01_generation_walk_first_hit.
 
 Theorem C01_generation_walk_relocatable : forall (fr : nat -> Z) (n : nat) (hash_of : Z -> Z) mCount key ht pred,
   Gen_HSFind.pvFindKey true hash_of (fun _ b _ => fr (Z.to_nat (b - 1))) (fun b => if b <? Z.of_nat n then b + 1 else 0) mCount 1 key ht pred
   = GenPrelude.Ok (if mCount =? 0 then 0 else fr 0%nat).
-Proof. exact GenWalk.walk_relocatable. Qed.
+Proof. exact ChainWalk.walk_relocatable. Qed.
 Print Assumptions C01_generation_walk_relocatable.
 
 Theorem C01_generation_walk_is_gfind : forall (B : Type) (b0 : B) decode h wf0 start next (gs : list (table B)) k hash_of mCount ht pred,
   (1 <= length gs <= Gen_HSFind.fuel_of_pvFindKey)%nat ->
   (forall t idx pos v, In t gs -> tfind B b0 decode h wf0 start next t k = Some (idx, pos, v) -> 0 <= idx) ->
   Gen_HSFind.pvFindKey false hash_of
-    (fun _ b _ => GenWalk.enc_pos (tfind B b0 decode h wf0 start next (nth (Z.to_nat (b - 1)) gs (@mkT B 0 nil)) k))
+    (fun _ b _ => ChainWalk.enc_pos (tfind B b0 decode h wf0 start next (nth (Z.to_nat (b - 1)) gs (@mkT B 0 nil)) k))
     (fun b => if b <? Z.of_nat (length gs) then b + 1 else 0) mCount 1 k ht pred
-  = GenPrelude.Ok (if mCount =? 0 then 0 else match gfind B b0 decode h wf0 start next gs k 0 with Some (_, i, p, v) => GenWalk.enc_pos (Some (i, p, v)) | None => 0 end).
-Proof. exact GenWalk.walk_is_gfind. Qed.
+  = GenPrelude.Ok (if mCount =? 0 then 0 else match gfind B b0 decode h wf0 start next gs k 0 with Some (_, i, p, v) => ChainWalk.enc_pos (Some (i, p, v)) | None => 0 end).
+Proof. exact ChainWalk.walk_is_gfind. Qed.
 Print Assumptions C01_generation_walk_is_gfind.
+
+(* ---------- review-fix round: the escapes of the theorems above, closed or characterised ---------- *)
+
+(* C01_step_refines allows "x = RExn /\ s' = s" for every operation.  Which operations can answer RExn at all, and what the throw is:
+   Find / Remove / SetVal / Clear / Traverse / Count / Remove(filter) and insertions of a present key never do (exn_cause = False);
+   for the others RExn is exactly the None of the named model function; the state is unchanged *)
+Theorem C01_step_exn_only :
+  forall B b0 decode upd_bound h cap unlimited wf0 wfThr start next logStart calcCapacity shift maxLog (s : hset B) o s',
+    step B b0 decode upd_bound h cap unlimited wf0 wfThr start next logStart calcCapacity shift maxLog s o = (s', RExn) ->
+    s' = s /\ StepExn.exn_cause B b0 decode upd_bound h cap unlimited wf0 wfThr start next logStart calcCapacity shift maxLog s o.
+Proof. exact StepExn.step_exn_only. Qed.
+Print Assumptions C01_step_exn_only.
+
+(* the `None` of reserve_log (second conjunct of C01_never_table_full; hreserve) is not a fuel artefact: no size nl .. nl + fuel has room *)
+Theorem C01_reserve_log_none : forall (calcCapacity : Z -> Z) fuel nl n, reserve_log calcCapacity fuel nl n = None ->
+  forall j, nl <= j <= nl + Z.of_nat fuel -> calcCapacity (2 ^ j) < n.
+Proof. exact GrowLoops.reserve_log_none. Qed.
+Print Assumptions C01_reserve_log_none.
+
+(* the regenerated Reserve loop throws length_error only when no table size up to 2^63 buckets reaches the requested capacity *)
+Theorem C01_reserve_loop_exn : forall mc (calcCapacity : Z -> Z) cap ht nc nl, 0 <= nl <= 63 ->
+  Gen_HashSetGrow.Reserve_loop0 mc (fun bc _ => calcCapacity bc) Gen_HashSetGrow.fuel_of_Reserve cap ht nc nl = GenPrelude.Exn ->
+  forall j, nl <= j <= 63 -> calcCapacity (2 ^ j) < cap.
+Proof. exact GrowLoops.reserve_loop_exn. Qed.
+Print Assumptions C01_reserve_loop_exn.
+
+(* HashInst.upd_fn / shift_fn map Stuck / Fuel of the regenerated functions to "unchanged" / 1: never taken under the invariant *)
+Theorem C01_upd_fn_never_swallows : forall kind b p log, Binv_of kind b -> 0 <= log <= 63 -> 0 <= p < 2 ^ log ->
+  (kind <= 1 -> upd_fn kind b p = b) /\
+  (kind = 2 -> Gen_Open2N2.UpdateMaxProbe b p = GenPrelude.Ok (tt, upd_fn kind b p)) /\
+  (3 <= kind -> Gen_OpenN1.UpdateMaxProbe (kind - 2) b p = GenPrelude.Ok (tt, upd_fn kind b p)).
+Proof. exact NoSwallow.upd_fn_never_swallows. Qed.
+Print Assumptions C01_upd_fn_never_swallows.
+
+Theorem C01_shift_fn_never_swallows : forall cap bc, 0 < bc -> 0 < cap ->
+  Gen_HashBucketBase.GetBucketCountShift bc cap = GenPrelude.Ok (shift_fn 0 cap bc).
+Proof. exact NoSwallow.shift_fn_never_swallows. Qed.
+Print Assumptions C01_shift_fn_never_swallows.
+
+(* establishing lemmas that existed but were not exported: the LimP4 bucket invariant holds for a cleared bucket; the configuration of
+   C01_nonvacuous_multigen is a valid one *)
+Theorem C01_p4_inv_empty : forall H, 4 <= H ->
+  P4_Bucket.p4_inv H (Gen_P4.pvSetEmpty H (fun _ => 0) 0) 0 (fun _ => 0) (fun _ => 0).
+Proof. exact P4_Bucket.p4_inv_empty. Qed.
+Print Assumptions C01_p4_inv_empty.
+
+Theorem C01_nv_cfg_valid : cfg_valid nv_cfg.
+Proof. exact nv_cfg_valid. Qed.
+Print Assumptions C01_nv_cfg_valid.
